@@ -57,7 +57,8 @@ Record presult := mkP { p_recs : list record; p_end : option bytes }.
    The head is the reader's current buffer (lastRecord). Older buffers are never written again. *)
 Definition store := list (list field).
 
-(* a []string value as the glue sees it: a slice nobody else writes to, or a view of n slots of buffer id
+(* a []string value as the glue sees it: a slice nobody else writes to -- its whole backing array, spare capacity
+   included, is reachable through this slice only --, or a view of n slots of buffer id
    (ids count from the bottom of the store, so they are stable when a buffer is pushed) *)
 Inductive handle := HVal (r : record) | HBuf (id n : nat).
 
@@ -239,7 +240,11 @@ Inductive outcome :=
 | OFuel                                              (* model ran out of fuel: excluded by C16_total *)
 | OErr (e : err)
 | OBytes (b : bytes)                                 (* what a byte sink received *)
-| ORecs (rows : list record) (len cap : nat) (aliased : bool).  (* what a record sink holds; two rows share a buffer *)
+| ORecs (rows : list record) (len cap : nat) (aliased : bool).
+  (* what a record sink holds. aliased: the storage of some delivered record, taken up to its full CAPACITY and not only
+     up to its length, overlaps the storage of another delivered record (of this call or of a later call), so that a
+     caller who writes to or appends to one record changes what another one reads. For a caller's CSVWriter the slices
+     it was handed are judged, and only when the caller did not ask for ReuseRecord (see handed_alias). *)
 
 (* nil typed pointers are refused up front (after the fix of F-C16-4; before, the switch arms dereferenced them) *)
 Definition nil_is_refused : bool := true.
@@ -262,6 +267,20 @@ Fixpoint shares_buffer (rows : list handle) : bool :=
   end.
 
 Definition wtr_rows (w : wtr) : list handle := match w with WTable rows => rows | WCsv _ => [] end.
+
+(* does this reader hand out views of its own reuse buffer (ReuseRecord)? *)
+Definition reader_reuses (r : rdr) : bool := match r with RCsv _ _ reuse => reuse | RTable _ => false end.
+
+(* What pipeCSV hands to a caller's CSVWriter. A writer that RETAINS the slices it is handed is a container that does
+   not copy: WTable under pipe_csv_with false. Whether two of the retained slices share storage is judged only when the
+   caller did not ask for ReuseRecord (with it the sharing is the caller's own request, documented by encoding/csv);
+   without it every Read returns a slice nobody else writes to, and the glue must hand over exactly that. *)
+Definition handed_alias (r : rdr) (k : Z) : bool :=
+  if reader_reuses r then false else
+  match pipe_csv_with false (WTable []) r [] k with
+  | PDone w _ => shares_buffer (wtr_rows w)
+  | _ => false
+  end.
 
 Inductive skind := SCsvReader | SCSVReader | SReader | SWriterTo | SBinaryMarshaler | SRecords | SBytes | SString.
 
@@ -310,7 +329,7 @@ Section Glue.
       match pipe_csv (WCsv []) r [] (o_skip o) with
       | PErr e => OErr (EParser e)
       | PFuel => OFuel
-      | PDone w st => ORecs (w_records w st) 0 0 false
+      | PDone w st => ORecs (w_records w st) 0 0 (handed_alias r (o_skip o))
       end
     | DWriter => via_pipe_bytes wo r (o_skip o)
     | DReaderFrom | DBinaryUnmarshaler | DBytes | DString => via_buffer_bytes wo r (o_skip o)
